@@ -14,6 +14,7 @@ import (
 	"path/filepath"
 	"sort"
 	"strconv"
+	"strings"
 	"sync"
 	"testing"
 	"unicode/utf8"
@@ -377,14 +378,73 @@ func libCompileSearchTwice(expr string, doc interface{}) (first, again libOut) {
 	return
 }
 
+// show renders a value for reports. It is depth limited: a broken library may hand
+// back (or turn the document into) a cyclic structure.
 func show(v interface{}) string {
-	if ref.HasSpecial(v) {
-		return ref.Canon(v)
+	var sb strings.Builder
+	showInto(&sb, v, 0)
+	s := sb.String()
+	if len(s) > 4000 {
+		s = s[:4000] + "...(truncated)"
 	}
-	if !isJSONData(v) {
-		return fmt.Sprintf("%#v", v)
+	return s
+}
+
+func showInto(sb *strings.Builder, v interface{}, depth int) {
+	if depth > 40 {
+		sb.WriteString("<nesting deeper than 40: cyclic?>")
+		return
 	}
-	return ref.Canon(v)
+	if sb.Len() > 5000 {
+		return
+	}
+	switch t := v.(type) {
+	case nil:
+		sb.WriteString("null")
+	case bool, float64:
+		sb.WriteString(ref.Canon(t))
+	case string:
+		sb.WriteString(ref.QuoteJSON(t))
+	case []interface{}:
+		if t == nil {
+			sb.WriteString("[]interface{}(nil)")
+			return
+		}
+		sb.WriteByte('[')
+		for i, e := range t {
+			if i > 0 {
+				sb.WriteByte(',')
+			}
+			showInto(sb, e, depth+1)
+		}
+		sb.WriteByte(']')
+	case map[string]interface{}:
+		if t == nil {
+			sb.WriteString("map[string]interface{}(nil)")
+			return
+		}
+		sb.WriteByte('{')
+		for i, k := range ref.SortedKeys(t) {
+			if i > 0 {
+				sb.WriteByte(',')
+			}
+			sb.WriteString(ref.QuoteJSON(k))
+			sb.WriteByte(':')
+			showInto(sb, t[k], depth+1)
+		}
+		sb.WriteByte('}')
+	case ref.Bag:
+		sb.WriteString("bag")
+		showInto(sb, t.Items, depth+1)
+	case ref.TextOf:
+		sb.WriteString("textof(")
+		showInto(sb, t.V, depth+1)
+		sb.WriteByte(')')
+	case ref.ExpRef:
+		sb.WriteString("&expref")
+	default:
+		fmt.Fprintf(sb, "%#v", v)
+	}
 }
 
 func showOut(o libOut) string {
